@@ -5,7 +5,7 @@
 Require Extraction.
 Require Import ExtrOcamlBasic.
 From Coq Require Import List NArith ZArith.
-From SDB Require Import Base.Bytes Base.Assoc Params Model.Codec Model.Lock Model.Page Model.Pool.
+From SDB Require Import Base.Bytes Base.Assoc Params Model.Codec Model.Lock Model.Page Model.Pool Model.SqlRef.
 
 Extraction Blacklist List String Int.
 
@@ -23,4 +23,6 @@ Extraction "sdbmodel.ml"
   pinit pstep astep abs op_ok
   (* M5 buffer pool *)
   binit bstep
+  (* SQL reference semantics *)
+  sel upd del join_sel eval_pred
   N.of_nat N.to_nat Z.of_N Z.to_N Z.compare N.compare.
